@@ -155,6 +155,19 @@ fn emit(out: &mut Out, runner: &Runner, c: &MergeCase, with_stream: bool) {
 	if !valid {
 		out.count("merge_invalid_input");
 		out.oracle(!matches!(res, Res::Panic(_)), "C10 merge: panic on input that is not a valid tile set", json!({"kind": "panic_invalid"}), json!({"case": line}));
+		if let Some(s) = &stream {
+			// a tile the lookup refuses must be left out of the stream, never abort it
+			out.eval(&format!("stream {line}"), false);
+			let ok = match (s, &res) {
+				(Res::Panic(_), _) => false,
+				(Res::Tile(a), Res::Tile(b)) => a == b,
+				(Res::Tile(_), _) => false,
+				(_, Res::Tile(_)) => false,
+				_ => true,
+			};
+			let what = if matches!(s, Res::Panic(_)) { "get_tile_stream panics on a source tile that is not valid (the lookup returns an error)" } else { "get_tile_stream and get_tile_data disagree on input that is not valid" };
+			out.oracle(ok, &format!("C10 merge: {what}"), json!({"kind": "stream_invalid"}), json!({"case": line}));
+		}
 		return;
 	}
 	if present == 0 {
@@ -252,7 +265,16 @@ pub fn run(args: &Args) {
 			}
 		}
 		let stagger = rng.below(4) as u32;
-		emit(&mut out, &runner, &MergeCase { sources, stagger }, i % 3 != 2);
+		let mut with_stream = i % 3 != 2;
+		if i % 25 == 11 {
+			// one source delivers a truncated tile: lookup must fail cleanly, the stream must survive
+			if let Some((Some(b), _)) = sources.iter_mut().find(|(t, _)| t.as_ref().is_some_and(|b| b.len() > 2)) {
+				let keep = rng.range(1, b.len() as u64 - 1) as usize;
+				b.truncate(keep);
+				with_stream = true;
+			}
+		}
+		emit(&mut out, &runner, &MergeCase { sources, stagger }, with_stream);
 	}
 	out.finish();
 }
